@@ -308,6 +308,17 @@ impl RecGen {
             }
             return out;
         }
+        // "very many records, and one or two of them far longer than the rest": the worker
+        // that draws the long one is still busy while the others race thousands of
+        // records ahead -- what reorder buffers, turn counters and windows are sized for
+        if many && out.len() >= 1000 && rng.chance(1, 3) {
+            for _ in 0..rng.usize(1, 2) {
+                let at = if rng.chance(1, 2) { rng.usize(0, out.len() / 8) } else { rng.usize(0, out.len() - 1) };
+                let len = rng.usize(30_000, 300_000);
+                let alpha = *rng.pick(&[Alpha::Clean, Alpha::Mixed]);
+                out[at].seq = gen_seq(rng, len, alpha);
+            }
+        }
         // now and then one record far longer than the rest, so that listings,
         // rows and lines cross the 4 KiB / 8 KiB buffer sizes used along the way
         if self.max_len >= 150 && !out.is_empty() && !many && rng.chance(1, 16) {
